@@ -526,10 +526,42 @@ func runC11(c *Ctx) {
 	R.Rules["E5.refuse"] = "the key-exists refusal ends only the refused connection"
 	R.Rules["E5.route"] = "commands are routed through the same map: hit → that session's channel, miss → immediate not-exist error"
 	c.sessionRules(true)
-	R.Require("E5.confine", 2, "")
+	c.managerOnce()
+	R.Require("E5.confine", 3, "")
 	R.Require("E5.leave", 1, "")
 	R.Require("E5.stop-order", 2, "")
 	R.Explain = "Structural reasons why the registry can be correct under every interleaving: confinement of the map to one goroutine, insert-if-absent, synchronous leave of exactly one's own key as the first step of a once-only teardown, key ownership only after a successful join, refusal ending only the newcomer, routing through the same map. " +
 		"Linearizability of concrete histories and callback counts over histories are not decided."
 	_ = strings.Join
+}
+
+// managerOnce: the registry map lives in the local state of the manager loop; exactly one such loop may run.
+func (c *Ctx) managerOnce() {
+	R := c.R
+	run := c.P.Method("service", "sessionManager", "run")
+	if run == nil {
+		R.Fatal("anchor sessionManager.run not found")
+		return
+	}
+	var sites []string
+	inLoopSite := false
+	for _, fn := range c.RepoFuncs("service") {
+		for _, b := range fn.Blocks {
+			for _, ins := range b.Instrs {
+				g, ok := ins.(*ssa.Go)
+				if !ok || g.Call.StaticCallee() != run {
+					continue
+				}
+				sites = append(sites, shortFn(fn)+" at "+c.P.RelPos(g.Pos()))
+				if inLoop(b) {
+					inLoopSite = true
+				}
+			}
+		}
+	}
+	st, d := report.Discharged, ""
+	if len(sites) != 1 || inLoopSite {
+		st, d = report.Violated, fmt.Sprintf("the manager loop (which keeps the key→session map in a local variable) is started at %d places %v: with more than one manager goroutine the registry is split over private maps and operations land on either", len(sites), sites)
+	}
+	R.Add("E5.confine", "sessionManager.run / started exactly once", "", st, d)
 }
